@@ -23,6 +23,10 @@ var verifCrashHook func(what string)
 // the place where a writer's batch can arrive "during a merge".
 var verifMergeHook func()
 
+// verifMergeAwaitCancel is set by a merge hook that has just cancelled the context of the very merge
+// it runs in (never for merges not governed by that context).
+var verifMergeAwaitCancel bool
+
 // verifCPlugin is the stub plugin with crash points and zap's merge contract.
 type verifCPlugin struct{ verifPlugin }
 
@@ -31,7 +35,12 @@ func (p *verifCPlugin) MergeUsing(segments []segment.Segment, drops []*roaring.B
 	if verifMergeHook != nil {
 		verifMergeHook()
 	}
-	// like zap's merge, give up when the caller's cancel channel is closed
+	// like zap's merge, give up when the caller's cancel channel is closed; a hook that cancelled the
+	// context governing this merge asks to wait until the cancellation has arrived
+	if verifMergeAwaitCancel {
+		verifMergeAwaitCancel = false
+		<-closeCh
+	}
 	select {
 	case <-closeCh:
 		return nil, 0, segment.ErrClosed
